@@ -1,4 +1,5 @@
 import BHS.Props.C20
+import BHS.Props.CfgValidate
 open BHS.Props.C20
 #print axioms C20_precedence
 #print axioms C20_untouched_keep_default
@@ -19,3 +20,10 @@ open BHS.Props.C20
 #print axioms C20_refuses_incomplete_postgres
 #print axioms C20_refuses_missing_prepared_file
 #print axioms C20_validate_reason
+#print axioms BHS.Props.CfgValidate.CfgValidate_fileExists_translated
+#print axioms BHS.Props.CfgValidate.CfgValidate_db_translated
+#print axioms BHS.Props.CfgValidate.CfgValidate_app_translated
+#print axioms BHS.Props.CfgValidate.CfgValidate_every_oracle
+#print axioms BHS.Props.CfgValidate.CfgValidate_accepts_iff
+#print axioms BHS.Props.CfgValidate.CfgValidate_reason
+#print axioms BHS.Props.CfgValidate.CfgValidate_refuses_unstatable_prepared
